@@ -9,6 +9,8 @@ mod c17;
 mod alloc;
 mod c04;
 mod c15;
+mod c03;
+mod c02;
 mod enc;
 mod out;
 mod redisx;
@@ -70,6 +72,8 @@ fn main() {
         "C17" => c17::run(&a),
         "C15" => c15::run(&a),
         "C04" => c04::run(&a),
+        "C03" => c03::run(&a),
+        "C02" => c02::run(&a),
         _ => {
             eprintln!("no harness for {}", prop);
             std::process::exit(2);
